@@ -36,10 +36,10 @@ type lexAnchors struct {
 
 func lexerAnchors(c *Ctx) *lexAnchors {
 	a := &lexAnchors{}
-	a.input = c.fieldByType("lexer", "Lexer", func(t types.Type) bool {
+	a.input = c.fieldByTypeUsedIn("lexer", "Lexer", func(t types.Type) bool {
 		b, ok := t.Underlying().(*types.Basic)
 		return ok && b.Kind() == types.String
-	})
+	}, "(*lexer.Lexer).ReadChar")
 	a.line = c.fieldByName("lexer", "Lexer", "Line")
 	a.col = c.fieldByName("lexer", "Lexer", "Column")
 	// position/readPosition by role: ReadChar stores `position = readPosition; readPosition = readPosition + 1`
